@@ -170,7 +170,7 @@ def heap_straus(rep, cfg, path, n, backend=None):
         rec["goals"].append(dict(goal="the digit buffer is freed (a heap block that held only scalar digits)", verdict="unsat" if nd else "sat", solver_s=0.0, cases=1, solver_calls=0, kind="structural"))
         for r, size, dirty, kind in freed:
             rec["goals"].append(dict(goal="freed block %s (%s bytes, %s): no cell depends on a secret scalar" % (r, size, kind), verdict="unsat" if dirty == 0 else "sat", solver_s=0.0, cases=1, solver_calls=0,
-                                     kind="memory cells are secret-independent", dirty_cells=dirty))
+                                     kind="memory cells are secret-independent", dirty_cells=dirty, nontrivial=True))
         if backend:
             vec = [c for c in it.calls if "vector" in c and "scalar_mul" in c]
             rec["goals"].append(dict(goal="the %s vector copy of Straus was the one executed" % backend, verdict="unsat" if vec else "sat", solver_s=0.0, cases=1, solver_calls=0, kind="structural"))
@@ -233,7 +233,7 @@ def heap_batch_invert(rep, cfg, path, n, S):
         rec["goals"].append(dict(goal="secret-derived values reached the heap (kernel summaries produced %d symbolic results)" % cnt[0], verdict="unsat" if cnt[0] > 0 else "sat", solver_s=0.0, cases=1, solver_calls=0, kind="structural (vacuity guard)"))
         for r, size, dirty in freed:
             rec["goals"].append(dict(goal="freed block %s (%s bytes): every cell is a constant (no secret-derived value)" % (r, size), verdict="unsat" if not dirty else "sat", solver_s=0.0, cases=1, solver_calls=0,
-                                     kind="memory cells are secret-independent", dirty_offsets=dirty[:8]))
+                                     kind="memory cells are secret-independent", dirty_offsets=dirty[:8], nontrivial=True))
         bad = [g for g in rec["goals"] if g["verdict"] != "unsat"]
         rec["status"] = "ok" if not bad else ("violation" if any("freed block" in g["goal"] for g in bad) else "inconclusive")
         if bad: rec["why"] = bad[0]["goal"]
